@@ -53,4 +53,8 @@ CHECKS["C16"] = dict(level="exploration", technique="decision table in TLA+ (IEE
          "(row, answers) buckets; TLC checks every bucket against the table, the exact per-row counts for float, the presence of every row, "
          "and consistency of isnan / isfinite.",
     note="double and long double are per-exponent samples; x87 rows follow glibc and are cross-checked against std::fpclassify at run time.", ref="8/C16")
+CHECKS["C27"] = dict(level="exploration", technique="TLC-enumerated decision table (Bounds.tla) replayed on BoundsCheck<N> and judged by TLC",
+    text="The policy table (kind x policy x position of the value relative to inclusive bounds) is enumerated completely by TLC for "
+         "scalars, quantities and every component of 1D/2D/3D stensors; the harness observes throw / number of warnings; TLC judges equality with the table.",
+    note="Library-level BoundsCheck only; mfront-emitted checks are covered by C38-C40.", ref="8/C27")
 NOT_APPLICABLE = {}
